@@ -6,11 +6,12 @@
    Every definition used in a statement lives in Model.v (the model of
    noise.go / conn.go) or Spec.v (specification-side definitions: lex_lt,
    total_len, chain, slot_plain, no_forgery, hs_honest, act3_ct, act3_tag,
-   cop / crun_all / committed_all / returned, spec_reads, delivered); both
+   cop / crun_all / committed_all / returned, spec_reads, delivered, mop / proj /
+   strip / proc_run / releases_idle); both
    files contain definitions only. *)
 From Coq Require Import List NArith Sorted.
 From LV Require Import Noise.Model Noise.Spec.
-From LV Require Noise.Proofs Noise.TamperProofs Noise.HsProofs Noise.ConnProofs.
+From LV Require Noise.Proofs Noise.TamperProofs Noise.HsProofs Noise.ConnProofs Noise.MultiProofs.
 Import ListNotations.
 Local Open Scope N_scope.
 
@@ -281,3 +282,40 @@ Proof.
   - exact (ConnProofs.conn_stream_roundtrip K W enc dec hkdf Hlen Hdec).
   - exact (ConnProofs.conn_write_commit K W enc dec hkdf Hlen).
 Qed.
+
+(* Several sessions alive in one process.  The process is a list of sender runs
+   (one per session, cipher states cs); a schedule is ANY list of (session,
+   step), a step being WriteMessage p, Flush with any answers of the writer, or
+   releaseBuffers (Conn.ClearPendingSend).  For every session i:
+   (1) its state after the whole schedule is the state after its OWN steps
+       (proj i sched) alone: nothing another session does - writing, flushing
+       partially, releasing, giving a half sent record up - has any influence;
+   (2) if each of ITS releases happens with nothing buffered (the redundant
+       releases: writeHandler's ClearPendingSend after a message is out), it is
+       exactly the single session run of its WriteMessage / Flush calls, so the
+       bytes its writer took plus what is still buffered are the honest stream
+       of the messages it accepted, and with nothing buffered the peer reads
+       back exactly those messages, in order.
+   The buffer pools of noise.go are process-wide state OUTSIDE this model;
+   the correspondence run (multi-session cases of props/c11.py) is what ties
+   the real code to this pool-free behaviour.
+   Hypotheses: Open(Seal p) = p and |Seal p| = |p| + 16. *)
+Theorem C11_sessions_independent :
+  forall (K W : Type) (enc : K -> N -> option K -> list N -> list W)
+         (dec : K -> N -> option K -> list W -> option (list N)) (hkdf : K -> option K -> K * K),
+    (forall k n ad p, len (enc k n ad p) = len p + mac_size) ->
+    (forall k n ad p, dec k n ad (enc k n ad p) = Some p) ->
+    forall (cs : list (cstate K)) (sched : list (nat * mop)) (i : nat) (c : cstate K),
+      nth_error cs i = Some c ->
+      let st := proc_run K W enc hkdf (map (srun_init K W) cs) sched in
+      let mine := proj i sched in
+      nth_error st i = Some (fold_left (mrun_step K W enc hkdf) mine (srun_init K W c)) /\
+      (releases_idle K W enc hkdf (srun_init K W c) mine ->
+       let r := srun_all K W enc hkdf c (strip mine) in
+       let s := r_snd K W r in
+       nth_error st i = Some r /\
+       r_wire K W r ++ sn_hdr s ++ sn_body s = fst (ideal_stream K W enc hkdf c (r_accepted K W r)) /\
+       (sn_hdr s = nil -> sn_body s = nil ->
+        read_n K W dec hkdf (length (r_accepted K W r)) c (r_wire K W r) =
+        Some (r_accepted K W r, sn_cs s, nil))).
+Proof. exact MultiProofs.sessions_independent. Qed.
